@@ -71,9 +71,7 @@ impl Diagnostic {
 
         let (start_line, start_col) = line_index.line_col(range.start());
 
-        // we subtract 1 since end_line_column is inclusive,
-        // unlike TextRange which is always exclusive
-        let (end_line, end_col) = line_index.line_col(range.end() - TextSize::from(1));
+        let (end_line, end_col) = line_index.line_col(inclusive_end(range));
 
         let (ansi_reset, ansi_yellow, ansi_red, ansi_white, ansi_blue) = if with_colors {
             (
@@ -123,9 +121,7 @@ impl Diagnostic {
 
             let (start_line, start_col) = line_index.line_col(range.start());
 
-            // we subtract 1 since end_line_column is inclusive,
-            // unlike TextRange which is always exclusive
-            let (end_line, end_col) = line_index.line_col(range.end() - TextSize::from(1));
+            let (end_line, end_col) = line_index.line_col(inclusive_end(range));
 
             input_snippet(
                 filename,
@@ -240,6 +236,18 @@ impl HelpDiagnostic<'_> {
                 ty_diagnostic_help_message(d, mod_dir, interner, show_complex_info)
             }
         }
+    }
+}
+
+/// `end_line` and `end_col` are inclusive, unlike `TextRange` which is always exclusive,
+/// so the end is moved back by one. An empty range (e.g. a missing argument) has nothing before
+/// its end that belongs to it, there the end stays where the range starts; otherwise the "end"
+/// would be in front of the start, on the previous line if the range sits at column 0.
+fn inclusive_end(range: TextRange) -> TextSize {
+    if range.is_empty() {
+        range.start()
+    } else {
+        range.end() - TextSize::from(1)
     }
 }
 
